@@ -455,7 +455,8 @@ TOP_OPS = ['or', 'and', 'eq', 'ne', 'lt', 'le', 'gt', 'ge', 'plus', 'minus', 'mu
            'fn:id', 'fn:local-name', 'fn:namespace-uri', 'fn:name', 'fn:string', 'fn:concat', 'fn:starts-with', 'fn:contains',
            'fn:substring-before', 'fn:substring-after', 'fn:substring', 'fn:string-length', 'fn:normalize-space', 'fn:translate',
            'fn:boolean', 'fn:not', 'fn:true', 'fn:false', 'fn:lang', 'fn:number', 'fn:sum', 'fn:floor', 'fn:ceiling', 'fn:round',
-           'fn:string0', 'fn:number0', 'fn:name0', 'fn:local-name0', 'fn:namespace-uri0', 'fn:string-length0', 'fn:normalize-space0', 'ext']
+           'fn:string0', 'fn:number0', 'fn:name0', 'fn:local-name0', 'fn:namespace-uri0', 'fn:string-length0', 'fn:normalize-space0', 'ext',
+           'xslt:current']
 
 
 @st.composite
@@ -494,6 +495,13 @@ def top_expression(draw, op, d=2):
         toks = [draw(st.sampled_from(['/', '//']))] + draw(step(d))
     elif op == 'filter':
         toks = ['('] + NS() + [')'] + draw(predicate(d - 1))
+    elif op == 'xslt:current':
+        # current() is the node the evaluation started from: every entry point has to establish it
+        toks = draw(st.sampled_from([['current', '(', ')'], ['count', '(', 'current', '(', ')', '/', '*', ')'], ['name', '(', 'current', '(', ')', ')'],
+                                     ['current', '(', ')', '/', '@*'], ['string', '(', 'current', '(', ')', ')'],
+                                     ['count', '(', 'current', '(', ')', '/', 'ancestor::*', ')', '+', '1'],
+                                     ['*', '[', 'generate-id', '(', '..', ')', '=', 'generate-id', '(', 'current', '(', ')', ')', ']'],
+                                     ['sum', '(', 'current', '(', ')', '/', '@*', ')'], ['current', '(', ')', '/', '..', '/', '*', '[', '1', ']']]))
     elif op == 'ext':
         toks = draw(st.sampled_from([['set:distinct', '('] + NS() + [')'], ['math:max', '('] + NS() + [')'], ['str:concat', '('] + NS() + [')'],
                                      ['set:difference', '('] + NS() + [','] + NS() + [')'], ['exsl:object-type', '('] + A() + [')'],
